@@ -193,9 +193,10 @@ class scrypt(  # type: ignore[misc]
         parts = params.split(",")
         if len(parts) == 3:
             nstr, bstr, pstr = parts
-            assert nstr.startswith("ln=")
-            assert bstr.startswith("r=")
-            assert pstr.startswith("p=")
+            if not (
+                nstr.startswith("ln=") and bstr.startswith("r=") and pstr.startswith("p=")
+            ):
+                raise uh.exc.MalformedHashError(cls, "malformed settings field")
         else:
             raise uh.exc.MalformedHashError(cls, "malformed settings field")
 
